@@ -27,42 +27,97 @@ def generate(ctx, families=GEN_FAMILIES, deep=None):
     jobs = []
     for fam, (q, t) in families.items():
         def job(fam=fam, ov=(t if thorough else q)):
-            return ctx.tlc("GenProg", fam, overrides=ov, workers=4, timeout=3000)["out"]
+            cfg = fam.split(":")[0]
+            return ctx.tlc("GenProg", cfg, name=fam.replace(":", "_"), overrides=ov, workers=4, timeout=3000)["out"]
         jobs.append(job)
     outs = ctx.parallel(jobs, width=4)
     if deep:
         num, depth, bound = deep
-        info = ctx.tlc("GenProg", "gen_deep", name="gen_deep_sim", overrides={"Bound": bound}, workers=1,
+        info = ctx.tlc("GenProg", "gen_deep", name="gen_deep_sim", overrides={"Bound": bound}, workers=8,
                        simulate="num=%d" % num, depth=depth, timeout=3000, must_finish=False)
         outs.append(info["out"])
     return outs
 
 
-def prog_like(ctx, prop):
+def prog_like(ctx, prop, families=GEN_FAMILIES, deep=True, trace=False, soups=0, layouts=None):
     ctx.build_harness()
     thorough = ctx.tier == "thorough"
-    outs = generate(ctx, deep=((20000, 60, 40) if thorough else (1500, 40, 24)))
-    ctx.harness("prog-replay", "--property", prop, "--cases", ",".join(outs), "--seed", ctx.seed,
-                "--layouts", 12 if thorough else 4, "--out", "prog.json", timeout=7200)
+    outs = generate(ctx, families, deep=(((2500, 60, 40) if thorough else (100, 40, 24)) if deep else None))
+    argv = ["prog-replay", "--property", prop, "--cases", ",".join(outs), "--seed", ctx.seed,
+            "--layouts", layouts or (12 if thorough else 4), "--out", "prog.json", "--soups", soups]
+    if trace:
+        argv += ["--trace", "parse.ndjson", "--trace-cap", 200000 if thorough else 25000]
+    ctx.harness(*argv, timeout=7200)
     ctx.load_result("prog.json")
     for o in outs:
         os.unlink(o)
+    cov = {
+        "rule": "every program of the generator families of spec/GenProg.tla named in tlc_runs is a terminal state of the "
+                "choice tree (exhaustive within the family bounds: operator pairs x groupings x operand decorations, triples, "
+                "sign/index/call/paren nests in every operand context, an expression menu in every expression position, every "
+                "operator with every combination of optional parts, operator and statement sequences, planted rule violations "
+                "with their twins, all single token edits, pathological nestings); plus random deep expression trees from "
+                "tlc -simulate; each is rendered in several layouts and fed to the real code. Non-trivial = contains at "
+                "least one operator, expression or edit.",
+    }
+    if trace:
+        info = ctx.tlc("TraceParse", "trace_parse", workers=1, timeout=3000, env={"TRACE_FILE": ctx.path("parse.ndjson")})
+        ctx.harness("parse-trace-check", "--property", prop, "--side", "parse.ndjson.side", "--verdicts", info["out"],
+                    "--out", "ptrace.json")
+        tr = ctx.load_result("ptrace.json")
+        cov["accepted_sources_validated_by_TLC"] = tr["cases"]
+    return {"exhaustive": True, "assumptions": ASSUME, "coverage": cov}
+
+
+def corrupt_fams(thorough):
+    if thorough:
+        return {
+            "gen_corrupt:operators": {"BaseFamily": '"operators"', "EditMenu": 22},
+            "gen_corrupt:positions": {"BaseFamily": '"positions"', "EditMenu": 22},
+            "gen_corrupt:pipelines": {"BaseFamily": '"pipelines"', "EditMenu": 10, "Bound": 2},
+            "gen_corrupt:statements": {"BaseFamily": '"statements"', "EditMenu": 22, "Bound": 3},
+        }
     return {
-        "exhaustive": True,
-        "assumptions": ASSUME,
-        "coverage": {
-            "rule": "every program of the generator families of spec/GenProg.tla (all operator pairs x groupings x operand "
-                    "decorations, triples, sign/index/call/paren nests in every operand context, an expression menu in every "
-                    "expression position, every operator with every combination of optional parts, operator sequences, "
-                    "statement sequences) is a terminal state; plus random deep expression trees from tlc -simulate; each is "
-                    "rendered in several layouts and fed to the real Parse / Walk / Compile. Every generated program is "
-                    "non-trivial (at least one operator or expression).",
-        },
+        "gen_corrupt:operators": {"BaseFamily": '"operators"', "EditMenu": 8},
+        "gen_corrupt:positions": {"BaseFamily": '"positions"', "EditMenu": 3},
     }
 
 
+def fam(ctx, names, extra=None):
+    thorough = ctx.tier == "thorough"
+    out = {k: GEN_FAMILIES[k] for k in names}
+    for k, ov in (extra or {}).items():
+        out[k] = (ov, ov)
+    return out
+
+
+def run_c08(ctx):
+    thorough = ctx.tier == "thorough"
+    fams = fam(ctx, ["gen_operators", "gen_positions", "gen_pipelines", "gen_statements"], corrupt_fams(thorough))
+    return prog_like(ctx, "C08", fams, deep=False, trace=True, soups=400000 if thorough else 30000, layouts=2)
+
+
+def run_c12(ctx):
+    thorough = ctx.tier == "thorough"
+    extra = {"gen_stress": {"Bound": 2000 if thorough else 500}, "gen_plant": {}}
+    extra.update(corrupt_fams(thorough) if thorough else {"gen_corrupt:operators": {"BaseFamily": '"operators"', "EditMenu": 4}})
+    fams = fam(ctx, list(GEN_FAMILIES), extra)
+    return prog_like(ctx, "C12", fams, deep=True, soups=500000 if thorough else 40000, layouts=3 if not thorough else 4)
+
+
+def run_c13(ctx):
+    thorough = ctx.tier == "thorough"
+    extra = {"gen_plant": {}}
+    extra.update({"gen_corrupt:operators": {"BaseFamily": '"operators"', "EditMenu": 22 if thorough else 4}})
+    fams = fam(ctx, list(GEN_FAMILIES), extra)
+    return prog_like(ctx, "C13", fams, deep=True, soups=100000 if thorough else 10000, layouts=6 if thorough else 3)
+
+
 CHECKS = {
-    "C07": {"run": lambda ctx: prog_like(ctx, "C07"), "level": "model_checking"},
-    "C10": {"run": lambda ctx: prog_like(ctx, "C10"), "level": "model_checking"},
+    "C07": {"run": lambda ctx: prog_like(ctx, "C07", trace=True), "level": "model_checking"},
+    "C08": {"run": run_c08, "level": "model_checking"},
+    "C10": {"run": lambda ctx: prog_like(ctx, "C10", fam(ctx, list(GEN_FAMILIES), {"gen_plant": {}, "gen_corrupt:operators": {"BaseFamily": '"operators"', "EditMenu": 22 if ctx.tier == "thorough" else 4}}), soups=200000 if ctx.tier == "thorough" else 20000), "level": "model_checking"},
     "C11": {"run": lambda ctx: prog_like(ctx, "C11"), "level": "model_checking"},
+    "C12": {"run": run_c12, "level": "model_checking"},
+    "C13": {"run": run_c13, "level": "model_checking"},
 }
